@@ -325,15 +325,9 @@ func (l *fileBasedLoader) HasEntry(name px.TypedName) bool {
 		return true
 	}
 
-	if paths, ok := l.paths[name.Namespace()]; ok {
-		for _, sm := range paths {
-			index := l.ensureIndexed(sm)
-			if _, ok := index[name.MapKey()]; ok {
-				return true
-			}
-		}
-	}
-	return false
+	// the index is built on demand: look it up under the lock, as find does
+	_, smartPath := l.findExistingPath(name)
+	return smartPath != nil
 }
 
 func (l *fileBasedLoader) addToIndex(smartPath SmartPath) {
